@@ -217,7 +217,8 @@ UNITS["prove"] = {
 UNITS["prove_msg"] = {
     "prelude": PRELUDE_ALL,
     "contracts": ["ctors.vc", "gens.vc", "transcripts.vc", "nonce.vc", "commit.vc", "prove_safety.vc", "prove_structure.vc", "prove_rng.vc", "prove_transcript.vc", "prove_messages.vc"],
-    "pieces": prover_pieces(extra_hoist=["prove_with_rng:vartime_mixed_multiscalar_mul", "prove_with_rng:vartime_multiscalar_mul"]) + [text("spec/spec_prove_msg.rs")],
+    "pieces": prover_pieces(extra_hoist=["prove_with_rng:vartime_mixed_multiscalar_mul", "prove_with_rng:vartime_multiscalar_mul#10",
+                                         "prove_with_rng:v_fold#20", "prove_with_rng:v_fold@recv#30"]) + [text("spec/spec_prove_msg.rs")],
     "safety": {"*": ["C01", "C06"]},
     "rlimit": 300,
 }
